@@ -801,6 +801,44 @@ theorem cmsa_step_rank_invariant (F : Fns Rat) (cC : Rat) (n mu : Nat) (s : Cmsa
   rw [List.head?_map, Option.map_map]
   rfl
 
+/-! ## VD-CMA (`Model/ES.lean` `vdUpdate`, tied to `VDCMA::updateStrategyParameters` by one-step refinement) -/
+
+/-- the step size of VD-CMA stays positive: `σ' = σ · exp(…)` -/
+theorem vd_sigma_pos (F : Fns Rat) (hexp : ∀ x, 0 < F.exp x) (c : VdConsts Rat) (n : Nat) (d : Vd Rat) (sel : List (VdInd Rat))
+    (hs : 0 < d.sigma) : 0 < (vdUpdate F c n d sel).sigma := by
+  unfold vdUpdate
+  exact mul_pos hs (hexp _)
+
+def relabelVd (φ : Rat → Rat) (i : VdInd Rat) : VdInd Rat := { i with fitness := φ i.fitness }
+
+theorem vdSelect_relabel (φ : Rat → Rat) (hφ : OrderPreserving φ) (off : List (VdInd Rat)) (mu : Nat) :
+    vdSelect (off.map (relabelVd φ)) mu = (vdSelect off mu).map (relabelVd φ) := by
+  unfold vdSelect
+  rw [List.map_take]
+  congr 1
+  symm
+  apply List.map_mergeSort
+  intro a _ b _
+  exact hφ a.fitness b.fitness
+
+/-- the update reads points and stored steps of the selected offspring, never their fitness -/
+theorem vdUpdate_relabel (F : Fns Rat) (c : VdConsts Rat) (n : Nat) (d : Vd Rat) (sel : List (VdInd Rat)) (φ : Rat → Rat) :
+    vdUpdate F c n d (sel.map (relabelVd φ)) = vdUpdate F c n d sel := by
+  unfold vdUpdate
+  simp only [List.map_map, List.zip_map_right, List.foldl_map]
+  rfl
+
+/-- **vd_step_rank_invariant**: one generation of VD-CMA on `φ ∘ f` with the same samples gives the same search
+distribution and reports the same point -/
+theorem vd_step_rank_invariant (F : Fns Rat) (c : VdConsts Rat) (n mu : Nat) (d : Vd Rat) (off : List (VdInd Rat))
+    (φ : Rat → Rat) (hφ : OrderPreserving φ) :
+    vdUpdate F c n d (vdSelect (off.map (relabelVd φ)) mu) = vdUpdate F c n d (vdSelect off mu) ∧
+      ((vdSelect (off.map (relabelVd φ)) mu).head?.map (·.point)) = ((vdSelect off mu).head?.map (·.point)) := by
+  rw [vdSelect_relabel φ hφ]
+  refine ⟨vdUpdate_relabel F c n d _ φ, ?_⟩
+  rw [List.head?_map, Option.map_map]
+  rfl
+
 /-! ## simplex downhill -/
 theorem track_le (b x : Sol Rat) : (track b x).value ≤ b.value := by
   unfold track; split
